@@ -18,11 +18,13 @@ META = {
     'rule': 'instance = (model with scale= on states/controls/algebraics/variables/derivatives/algebraic equations/constraints, method, N, M, grid); '
             'the complete row multiset of the scaled NLP, written in the physical (sampled) quantities, must be in bijection with the UNSCALED reference rows: '
             'user constraints exactly divided by their declared scale (bounds included), dynamics rows up to a positive/nonzero constant factor; objective equal; '
-            'solver variable = physical/scale; starting point read back in physical units equals the guess',
+            'solver variable = physical/scale; starting point read back in physical units equals the guess; '
+            "kind inf-scale: the problem with scale= on grid='inf' constraints against the same problem with scale 1 and the problem without those constraints (same variables): "
+            'every row a constant multiple, the factor 1/scale on exactly the certificate rows (bounds included in the normalised row)',
     'functions': ['rockit/direct_method.py:OptiWrapper.variable/subject_to/transcribe_placeholders (scaling of canonical form)',
                   'rockit/stage.py:_parse_scale/state/control/algebraic/variable/set_der/add_alg/subject_to(scale=)',
                   'rockit/multiple_shooting.py, single_shooting.py, direct_collocation.py: scale= at variable and constraint creation',
-                  'rockit/sampling_method.py:add_variables_V_control/set_initial'],
+                  'rockit/sampling_method.py:add_variables_V_control/set_initial/add_inf_constraints'],
     'bounds': 'scales are distinct concrete rationals (2, 1/4, 3, 10, 1/5, 7; element-wise for vector states); quick N<=3, M<=2; all methods; all real values',
     'outside': 'symbolic scale values; IEEE rounding; effect of scaling on solver iterations',
     'assumptions': ['reals for floats; constants identified up to 1e-10', 'markers stand for arbitrary total functions',
@@ -101,6 +103,14 @@ def instances(tier, seed):
                     h = Hsym[n % len(Hsym)]
                 add(fam.with_horizon(s, h), Cfg(method, N=N, M=M, intg=intg or 'rk', grid=g, degree=degree, scheme=scheme))
                 n += 1
+    # the right-hand sides (with their derivative scales) are given in another order than the states were declared
+    for mi, (method, intg) in enumerate((('DC', None), ('MS', 'rk'))):
+        for mdl in (scaled_models()[0], scaled_models()[2]):
+            s = copy.deepcopy(mdl)
+            if s.derscale is None:
+                s.derscale = [SC[(3 + j) % len(SC)] for j in range(s.nx)]
+            s.der_order = 'reversed'
+            add(fam.with_horizon(s, H[(2 * mi + 1) % len(H)] if method != 'DC' else Hsym[mi]), Cfg(method, N=2, M=1, intg=intg or 'rk', grid=fam.G_UNI, degree=2, scheme='radau'))
     # a constraint that is trivially true once the (numeric) horizon is filled in is declared FIRST: the scales of the later constraints stay their own
     from ..dsl import T as T_
     for mi, (method, intg) in enumerate((('MS', 'rk'), ('DC', None), ('SS', 'rk'))):
@@ -108,6 +118,16 @@ def instances(tier, seed):
         s.cons = [Con('>=', T_, Fr(1, 4))] + list(s.cons)
         s.note = (s.note or '') + ' + trivially true first constraint'
         add(fam.with_horizon(s, (('num', Fr(1, 2)), ('num', Fr(2)))), Cfg(method, N=2, M=[1, 2][mi % 2], intg=intg or 'rk', grid=fam.G_UNI, degree=2, scheme='radau'))
+    # scale= on a grid='inf' constraint: its certificate rows (body and bounds) are those of the unscaled problem divided by the scale
+    for mi, (method, intg, deg) in enumerate((('MS', 'rk', 4), ('DC', None, 4), ('SS', 'rk', 4), ('MS', 'rk', 4))):
+        s = copy.deepcopy(fam.ode_core()[0])
+        s.ode = [X(1), U(0)]
+        s.cons = [Con('<=', X(0), 1, grid='inf', scale=SC[(mi + 2) % len(SC)]), Con('==', at_t0(X(0)), 0), Con('<=<=', -50, 50, mid=U(0)),
+                  Con('<=<=', -2, 3, mid=X(0) * 2 + X(1), grid='inf', scale=SC[(mi + 3) % len(SC)])]
+        s.objective = [at_tf(X(1))]
+        s.initial = []
+        s.note = 'scaled inf constraints'
+        add(fam.with_horizon(s, H[mi % 2]), Cfg(method, N=2, M=[1, 2][mi % 2], intg=intg or 'rk', grid=fam.G_UNI, degree=deg, scheme='radau'), kind='inf-scale')
     # seeded random scaled problems: random model, random scales on states/controls/algebraics/derivatives/variables and on every constraint
     from .. import randspec
     rr = random.Random(seed * 7919 + 1414)
@@ -143,7 +163,59 @@ def instances(tier, seed):
     return items
 
 
+def run_inf_scale(item):
+    """A = the problem with scaled grid='inf' constraints, B = the same with scale 1, C = without those constraints (same variables, bound by position).
+    Every row of A must equal a row of B times a constant; that constant is 1 for the rows C has too and exactly 1/scale for the certificate rows of
+    the scaled constraint (bounds are part of the normalised row)."""
+    from .common import bind_positional
+    spec, cfg = item['spec'], item['cfg']
+    A = Inst(spec, cfg, seed=item.get('seed', 0))
+    sB = copy.deepcopy(spec)
+    for c in sB.cons:
+        c.scale = 1
+    B = Inst(sB, cfg, seed=item.get('seed', 0), like=A, bind=bind_positional())
+    ch = Checker(A)
+    viol = []
+
+    def V(key, label, detail, pt=None):
+        viol.append(describe_violation(A, PROP, '%s|%s' % (key, cfg.method), label, detail, pt))
+    a = {d: [(k, t_, 'scaled.row%d.%d' % (r, n_)) for n_, (k, t_, r) in enumerate(A.atoms(d))] for d in A.domains()}
+    b = {d: [(k, t_, 'unscaled.row%d.%d' % (r, n_)) for n_, (k, t_, r) in enumerate(B.atoms(d))] for d in B.domains()}
+    if len(a['z']) != len(b['z']):
+        V('inf-scale:row-count', 'rows', 'scaled problem has %d rows, unscaled %d' % (len(a['z']), len(b['z'])), A.pts[0])
+    pairs, un_b, un_a = ch.match(b, a, modconst=lambda lab: True)
+    for j in un_b:
+        V('inf-scale:row-mismatch', b['z'][j][2], 'no row of the scaled problem is a constant multiple of this row of the unscaled one', A.pts[0])
+    # expected factor per row: rows of the unscaled problem in declaration order of the constraints are not labelled, so count: for every declared
+    # inf constraint with scale s, its number of certificate rows (found from the problem without it) must carry the factor 1/s, all others 1
+    want = {}
+    infc = [ci for ci, c in enumerate(spec.cons) if c.grid == 'inf' and c.scale != 1]
+    for ci in infc:
+        sC = copy.deepcopy(sB)
+        del sC.cons[ci]
+        Cn = Inst(sC, cfg, seed=item.get('seed', 0), like=A, bind=bind_positional())
+        want[Fr(1) / Fr(spec.cons[ci].scale)] = want.get(Fr(1) / Fr(spec.cons[ci].scale), 0) + len(B.atoms('z')) - len(Cn.atoms('z'))
+    got = {}
+    for lab, fac in ch.factors.items():
+        got[Fr(fac)] = got.get(Fr(fac), 0) + 1
+    got.pop(Fr(1), None)
+    if got != want:
+        V('inf-scale:factor', 'rows', "rows of the scaled problem / rows of the unscaled one: factors %s, expected %s (every certificate row of a grid='inf' constraint, body and bounds, divided by its scale)" % (
+            {str(k): v for k, v in sorted(got.items())}, {str(k): v for k, v in sorted(want.items())}), A.pts[0])
+    else:
+        ch.proved.append('inf rows divided by their scale: %s' % {str(k): v for k, v in sorted(want.items())})
+        ch.nontrivial.add('inf-scale')
+    r = result(A, ch, {'violations': viol, 'shape': 'inf-scale|%s' % cfg.tag(),
+                       'sample': {'cfg': cfg.tag(), 'kind': 'inf-scale', 'constraint_scales': [str(c.scale) for c in spec.cons], 'factors': {str(k): v for k, v in got.items()},
+                                  'nlp_rows': A.nlp.ng, 'matched': len(pairs)}})
+    if viol:
+        r['status'] = 'violation'
+    return r
+
+
 def run(item):
+    if item.get('kind') == 'inf-scale':
+        return run_inf_scale(item)
     spec, cfg = item['spec'], item['cfg']
     inst = Inst(spec, cfg, seed=item.get('seed', 0), poly=item.get('poly', False))
     ch = Checker(inst)
@@ -186,6 +258,26 @@ def run(item):
         vs = ch._vars(impa['z'][i][1])
         if vs & mv:
             V('extra-row', 'row %d' % impa['z'][i][2], 'NLP row matches no reference row', inst.pts[0])
+    # the constant factor found for a dynamics row is 1/(its OWN scale) up to one constant per row family: factor * own scale is the same for every
+    # state / algebraic equation (defect rows: derivative scale of the state; continuity and gap rows: state scale; algebraic rows: their own scale)
+    import re as _re
+    fam_scale = {'defect': (spec.derscale, 's'), 'cont': (spec.xscale, 's'), 'gap': (spec.xscale, 'i'), 'alg': (spec.algscale, 'a')}
+    prods = {}
+    for lab, fac in getattr(ch, 'factors', {}).items():
+        fam_ = lab.split('[')[0]
+        if fam_ not in fam_scale:
+            continue
+        scl, key_ = fam_scale[fam_]
+        idx_ = int(_re.search(r'%s=(\d+)' % key_, lab).group(1))
+        own = Fr(scl[idx_]) if scl is not None else Fr(1)
+        prods.setdefault(fam_, {}).setdefault(abs(Fr(fac) * own), []).append(lab)
+    for fam_, byval in prods.items():
+        if len(byval) > 1:
+            minority = min(byval.values(), key=len)
+            V('dynamics-scale:%s' % fam_, minority[0], '%s rows are not each divided by their OWN scale: factor x own scale takes the values %s (rows %s differ from the rest)' % (
+                fam_, sorted(str(v_) for v_ in byval), minority[:4]), inst.pts[0])
+        else:
+            ch.proved.append('%s rows: factor x own scale is one constant' % fam_)
     # objective in physical quantities
     fr = multi(inst, lambda tr: Ref(tr).objective())
     fi = {d: inst.view(d)[0] for d in doms}
